@@ -1,0 +1,64 @@
+//go:build verif
+
+package minersc
+
+// Machine-checked contracts for /verif/govc (contract-based deductive verification).
+// This file contains comments only; it is compiled only with -tags verif and adds no code.
+
+// ---------------------------------------------------------------- block fees and rewards (C22)
+
+// Splitting an amount between the miner side and the sharder side is exact: whatever the float
+// share ratio yields for the miner, the sharders get the rest, and nothing is created or lost.
+//@ func (*GlobalNode).splitByShareRatio
+//@   prop C22
+//@   requires gn != nil
+//@   ensures[exact-split] err == nil ==> miner + sharders == fees && miner <= fees
+//@   modifies nothing
+
+// The fees of a block are the exact (non-wrapping) sum of its transactions' fees.
+//@ spec blockFees(b *block.Block, n int) int = sumof k in 0..n :: b.Txns[k].Fee
+//@ func (*MinerSmartContract).sumFee
+//@   prop C22
+//@   requires msc != nil && b != nil && (forall i in 0..len(b.Txns) :: b.Txns[i] != nil)
+//@   ensures[fees-are-the-sum] result1 == nil ==> result0 == blockFees(b, len(b.Txns))
+//@   modifies nothing
+//@   loop 1 header "for _, txn := range b.Txns"
+//@   loop 1 invariant totalMaxFee == blockFees(b, $idx + 1)
+
+// View-change bookkeeping and node loading done by payFees before / around the payment: trusted frames
+// (they do not touch the transaction, the block or the amounts computed by payFees).
+//@ func GetPhaseNode
+//@   trusted
+//@   modifies nothing
+//@ func (*MinerSmartContract).setPhaseNode
+//@   trusted
+//@   modifies pn.$all, gn.$all, $saved, $nsaved, $deleted
+//@ func (*MinerSmartContract).adjustViewChange
+//@   trusted
+//@   modifies gn.$all, $saved, $nsaved, $deleted
+//@ func (*MinerSmartContract).SetMagicBlock
+//@   trusted
+//@   modifies gn.$all, $saved, $nsaved, $deleted
+//@ func getRewardedMiner
+//@   trusted
+//@   modifies nothing
+//@ func getLiveSharderIds
+//@   trusted
+//@   modifies nothing
+//@ func getRegisterShardersInMagicBlock
+//@   trusted
+//@   ensures fresh(result) || len(result) == 0
+//@   modifies nothing
+
+// payFees: the payment is computed only for a transaction sent by the block's generator that names
+// the block's own round; the miner side and the sharder side are paid amounts that add up exactly to
+// the block reward and to the block's fees.
+//@ func (*MinerSmartContract).payFees
+//@   prop C22
+//@   requires msc != nil && t != nil && gn != nil
+//@   opaque DistributeRewardsRandN, payShardersAndDelegates, GetItemsByIDs, save, viewChangeDeleteNodes, setLastRound, Shuffle
+//@   at-call sumFee assert[only-the-generator] t.ClientID == b.MinerID
+//@   at-call sumFee assert[only-this-round] inputRound.Round == b.Round
+//@   at-call getRewardedMiner assert[split-is-exact] minerRewards + sharderRewards == blockReward && minerFees + sharderFees == fees
+//@   at-call DistributeRewardsRandN assert[miner-side-amounts] ($arg1 == minerRewards || $arg1 == minerFees) && minerRewards + sharderRewards == blockReward && minerFees + sharderFees == fees
+//@   at-call payShardersAndDelegates assert[sharder-side-amounts] ($arg3 == sharderFees || $arg3 == sharderRewards) && minerRewards + sharderRewards == blockReward && minerFees + sharderFees == fees
